@@ -640,7 +640,7 @@ def rule_errors(chk, comp):
     helpers = {b["path"] for b in f.crates[comp["crate"]]["bodies"] if "thir" in b and b["path"] != comp["path"] and
                any(short(c.get("fn") or "") == "display" for c in F.exprs(b["thir"], "Call"))}
     disp += [(bb, t) for bb, t in cfg.calls() if cfg.callee(t) in helpers]
-    chk.floor("C08.floor/error-renderers", len({bb for bb, _ in disp}), 4, "err.display(&source_manager) renderings in compile", where(comp))
+    chk.floor("C08.floor/error-renderers", len({bb for bb, _ in disp}), 3, "err.display(&source_manager) renderings in compile", where(comp))
     for s in stages:
         sites = cfg.calls(s)
         ok = False
@@ -976,7 +976,7 @@ def rule_strslice(chk, reach):
                        "with a multi-byte character at that position the slice panics, here while a diagnostic is rendered" % (fld["f"], owner), where(b, c),
                        sample={"fn": owner, "bound": str(fld["f"])})
                 n += 1
-    chk.floor("C08.floor/str-slices", n, 2, "str slice bounds examined", "workspace")
+    chk.floor("C08.floor/str-slices", n, 1, "str slice bounds examined", "workspace")
 
 
 # ------------------------------------------------------------------ admitted kinds vs handled kinds
